@@ -149,9 +149,19 @@ def type_exprs(tier):
     for x in ops_[:4]:
         out += [["Opaque", "z.unknown", "Tz", C, [["SeqA", [["SeqA", [["TA", x]]], ["SeqA", []]]]]],
                 ["Opaque", "z.unknown", "Tz", C, [["SeqA", [["SeqA", [["SeqA", [["TA", x], ["NA", 2]]]]]]]]]]
+    # two opaque leaves side by side: each resolves (or stays opaque) independently of its sibling
+    for x in ops_[:4]:
+        for y in ops_[:4]:
+            out.append(["Tuple", [x, y]])
     if tier == "thorough":
-        for y in l1[:18]:
-            out += wrap(y)[:4]
+        l2 = [w for y in l1 for w in wrap(y)]
+        out += l2
+        for y in l2[::7]:
+            out += wrap(y)[:5]
+        for x in ops_:
+            for y in ops_:
+                out += [["Tuple", [x, y]], ["G", [x], [y], []], ["Sum", [[x], [y, x]]],
+                        ["Opaque", "z.unknown", "Tz", C, [["TA", x], ["SeqA", [["TA", y]]]]]]
     seen, res = set(), []
     for t in out:
         if repr(t) not in seen:
